@@ -381,6 +381,17 @@ def r04k(F):
 		'check_merge: the even custom TLVs are selected (filter on typ %% 2) from %s (expected from both self.custom_tlvs and further_htlc_fields.custom_tlvs: a part carrying an even TLV the other part lacks must be refused whichever arrives first)' % (sorted(srcs) or 'neither list'),
 		sum(len(v) for v in srcs.values()) + 1, where=F.where(fn))]
 
+def r04l(F):
+	"""a payment received through a phantom SCID is credited the amount the outer onion says is forwarded; only the admission test of the
+	unknown-SCID arm ties that amount to the HTLC actually committed (outgoing amount <= incoming amount). Same structural rule as 02.j,
+	re-labelled here: without it PaymentClaimable / PaymentClaimed report more than the node is credited."""
+	import C02
+	out = []
+	for r in C02.r02j(F):
+		r.rule = '04.l'
+		out.append(r)
+	return out
+
 RULES = [
 	('04.h', 'custom min-final-CLTV delta bytes: creation, delta reader and expiry decoder agree; expiry test uses the cleared value', r04h),
 	('04.a', 'inbound_payment::verify: Ok only past authentication, minimum amount and expiry', r04a),
@@ -391,6 +402,7 @@ RULES = [
 	('04.d', 'MPP completion predicate, bounded sum, agreement with the timer-side sibling', r04d),
 	('04.f', 'claim only behind the amount re-check; a refused claim fails every part', r04f),
 	('04.g', 'final-hop amount and cltv guards', r04g),
+	('04.l', 'phantom / intercept receives: the amount taken from the onion is bounded by the HTLC amount (02.j under C04)', r04l),
 	('04.k', 'MPP parts agree on their must-understand custom TLVs in both directions', r04k),
 	('04.p', 'same-name field transfer: structs carrying this property\'s quantities are filled from the same-named field or a reviewed alias (rules/provenance.py)', lambda F: provenance.for_property(F, 'C04', '04.p')),
 	('04.q', 'no call hands a value named like one parameter of the callee to a different parameter (swapped type-compatible arguments; rules/provenance.py)', lambda F: provenance.swaps_for_property(F, 'C04', '04.q')),
